@@ -13,7 +13,11 @@ Implementation functions driven (real code from /repo/src):
   between the two readings of the tolerance value (kind tol_forward);
   ONE Image / Segmentation object asked a list of get_volume_geometry /
   get_volume queries (Image.get_volume, Segmentation.get_volume with frames of
-  one plane in different segments) one after the other (kind mf_history).
+  one plane in different segments) one after the other (kind mf_history);
+  Image / Segmentation objects whose plane orientation and / or pixel measures (PixelSpacing,
+  SpacingBetweenSlices) are stored PER FRAME - all frames agreeing, or one / several frames with another
+  orientation (antiparallel, rotated in plane, perpendicular, tilted), pixel spacing or spacing hint - asked
+  get_volume_geometry / get_volume, in two frame orders (kind mf_perframe).
 Model: coq/theories/C11_Model.v; theorems: C11_Props.v.
 
 The oracle is independent of the model: every stack is generated from ideal
@@ -53,10 +57,13 @@ MODELLED = ('spatial.get_normal_vector, _normalize_pixel_index_convention, _get_
             'allow_missing_positions / allow_duplicate_positions, forwarding of both declarations, RuntimeError -> '
             'None, number of slices, spacing, origin, slice axis); Image.get_volume / Segmentation.get_volume '
             '(stacked branch: frames identified by (position, segment), _prepare_volume_positions_table, which frame '
-            'lands in which slice x channel); a sequence of queries on one object = the list of the stateless answers')
+            'lands in which slice x channel); a sequence of queries on one object = the list of the stateless answers; '
+            '_Image._get_shared_frame_value as used by _get_stacked_volume_geometry (THE ImageOrientationPatient / '
+            'PixelSpacing / SpacingBetweenSlices of the frames: exactly one distinct row in the frame table, else '
+            'RuntimeError), frame table filled from shared or per-frame functional groups')
 STRATA = ['perm_all', 'regular', 'unsorted', 'dups', 'gaps', 'jitter', 'shear', 'scrambled', 'inplane', 'hint',
           'malformed', 'normal', 'series', 'plane_sort', 'sort_datasets', 'vol_series', 'vol_multiframe',
-          'mf_geometry', 'order_pair', 'int_positions', 'tol_forward', 'mf_history']
+          'mf_geometry', 'order_pair', 'int_positions', 'tol_forward', 'mf_history', 'mf_perframe']
 NOT_EXECUTED = ['Segmentation.get_volume options other than rtol / atol / allow_missing_positions (segment selection, '
                 'combine_segments, relabel: C01/C02 harnesses)',
                 'tiled (slide coordinate system) branch of get_volume: no stacking involved',
@@ -90,7 +97,16 @@ RULE = ('stacks of n <= 8 planes (<= 12 thorough) from integer ranks x spacing a
         'get_volume with allow_missing_positions x rtol / atol), always containing two queries that differ only in '
         'the argument that decides this stack, in either order, often the first query again at the end and a '
         'get_volume after geometry queries; every answer judged on its own from the stack and the arguments of '
-        'that query, identical queries must get identical answers, assembled arrays checked frame by frame. '
+        'that query, identical queries must get identical answers, assembled arrays checked frame by frame; '
+        'mf_perframe: the same objects with PlaneOrientationSequence and / or PixelMeasuresSequence moved from the '
+        'shared to the per-frame functional groups: every frame the same values (must behave exactly like shared '
+        'values), or the first / a middle / the last / several / all but one frame with another orientation '
+        '(row and column cosines exchanged, rotated 90 degrees in plane, mirrored, perpendicular plane differing '
+        'in the row or in the column cosines only, tilted), another PixelSpacing (both / first / second value, '
+        'exchanged) or another SpacingBetweenSlices, positions still a regular stack along the normal of the '
+        'majority orientation; get_volume_geometry must be None and get_volume refuse (RuntimeError) whichever '
+        'frame comes first; every case also with its frames in a second order; in-plane axes of the returned '
+        'affine observed. '
         'non-trivial = more than one distinct plane and the spec decides the case (not within 1e-6 of '
         'a threshold); distinct by case hash')
 EXHAUSTIVE = {'quick': False, 'thorough': False}
@@ -532,6 +548,16 @@ def gen_cases(rng, tier):
         frac = [x - math.floor(x) for x in c['pos'][0]]      # common fractional part of the (dyadic) origin
         c['pos'] = [[int(round(x - f)) for x, f in zip(p, frac)] for p in c['pos']]
         cases.append(c)
+    # -- orientation / pixel measures stored PER FRAME: frames that agree are a stack exactly as with shared
+    #    values; one (or several) frames with another orientation, pixel spacing or spacing hint are not a stack
+    #    of parallel congruent planes, wherever the foreign frame sits in the frame table; both frame orders
+    for target in ('image', 'seg'):
+        for what in ('none', 'none', 'ori', 'ori', 'ori', 'px', 'px', 'sbs'):
+            for _ in range(max(3, N // 20)):
+                c = _mk_perframe(rng, target, what)
+                cases.append(c)
+                if rng.random() < 0.6:
+                    cases.append(_perframe_reordered(rng, c))
     return cases
 
 
@@ -754,6 +780,125 @@ def _mk_history(rng, target, mode):
     return c
 
 
+_FOREIGN_ORI = ['swap', 'rot90', 'mirror', 'perp_col', 'perp_row', 'tilt']
+_MAIN_PX = [(1.0, 1.0), (0.5, 0.5), (0.75, 0.5), (2.0, 1.25), (0.25, 1.5)]
+
+
+def _foreign_orient(rc, cc, how):
+    """another orientation (exact rationals) for a frame of a stack whose orientation is (rc, cc)"""
+    n = _cross(rc, cc)
+    neg = lambda v: tuple(-x for x in v)
+    if how == 'swap':            # row and column cosines exchanged: antiparallel normal
+        return tuple(cc), tuple(rc)
+    if how == 'rot90':           # rotated by 90 degrees in its plane: same normal, another pixel grid
+        return tuple(cc), neg(rc)
+    if how == 'mirror':          # antiparallel normal
+        return neg(rc), tuple(cc)
+    if how == 'perp_col':        # perpendicular plane; differs in the column cosines only
+        return tuple(rc), tuple(n)
+    if how == 'perp_row':        # perpendicular plane; differs in the row cosines only
+        return tuple(n), tuple(cc)
+    # tilted about the row direction (3-4-5)
+    return tuple(rc), tuple(F(3, 5) * a + F(4, 5) * b for a, b in zip(cc, n))
+
+
+def _foreign_px(px, how):
+    a, b = px
+    return {'both': [2 * a, 2 * b], 'first': [a / 2, b], 'second': [a, 2 * b], 'swapped': [b, a]}[how]
+
+
+def _mk_perframe(rng, target, what):
+    """mf_perframe case: the object of an mf_history case (stack, segments, queries) whose plane orientation
+    and / or pixel measures are stored in the per-frame functional groups.  what = 'none' (all frames agree),
+    'ori' / 'px' / 'sbs' (the frames listed in c['odd'] carry another orientation / PixelSpacing /
+    SpacingBetweenSlices).  ori_of / px_of / sbs_of: per-frame values (None = stored in the shared groups)."""
+    c = _mk_history(rng, target, rng.choice(['ok', 'ok', 'ok', 'ok', 'gap', 'dups', 'dupgap', 'tol']))
+    c['kind'] = 'mf_perframe'
+    n = len(c['pos'])
+    s = F(c['meta']['s'])
+    rc, cc = [F(x) for x in c['rc']], [F(x) for x in c['cc']]
+    main = _orient(c)
+    c['px'] = list(rng.choice(_MAIN_PX))
+    ori_pf = what == 'ori' or rng.random() < (0.6 if what == 'none' else 0.3)
+    pm_pf = what in ('px', 'sbs') or rng.random() < (0.6 if what == 'none' else 0.3)
+    if what == 'none' and not (ori_pf or pm_pf):
+        ori_pf = True
+    if what == 'sbs':
+        c['opts']['hint'] = float(s * rng.choice([1, 1, 1, 2]))
+    elif pm_pf and rng.random() < 0.3:
+        c['opts']['hint'] = float(s * rng.choice([1, 1, 2]))
+    hint = c['opts']['hint']
+    # which frames are foreign: the first / a middle one / the last / several / all but one
+    odd = []
+    if what != 'none' and n > 1:
+        r = rng.random()
+        if r < 0.25:
+            odd = [0]
+        elif r < 0.45:
+            odd = [n - 1]
+        elif r < 0.7:
+            odd = [rng.randrange(n)]
+        elif r < 0.85:
+            odd = sorted(rng.sample(range(n), rng.randint(1, n - 1)))
+        else:
+            keep = rng.randrange(n)
+            odd = [i for i in range(n) if i != keep]
+    how = None
+    c['ori_of'] = [list(main) for _ in range(n)] if ori_pf else None
+    c['px_of'] = [list(c['px']) for _ in range(n)] if pm_pf else None
+    c['sbs_of'] = [hint] * n if pm_pf else None
+    if odd:
+        if what == 'ori':
+            how = rng.choice(_FOREIGN_ORI)
+            frc, fcc = _foreign_orient(rc, cc, how)
+            for i in odd:
+                c['ori_of'][i] = [float(x) for x in frc] + [float(x) for x in fcc]
+        elif what == 'px':
+            how = rng.choice(['both', 'first', 'second'] + (['swapped'] if c['px'][0] != c['px'][1] else []))
+            for i in odd:
+                c['px_of'][i] = _foreign_px(c['px'], how)
+        else:
+            how = rng.choice(['double', 'half', 'other'])
+            for i in odd:
+                c['sbs_of'][i] = hint * {'double': 2.0, 'half': 0.5, 'other': 1.25}[how]
+    c['odd'] = {'what': what if odd else 'none', 'frames': odd, 'how': how}
+    c['meta'] = dict(c['meta'], note=f"{c['meta']['note']}; per-frame "
+                     f"{'orientation ' if ori_pf else ''}{'pixel measures ' if pm_pf else ''}- "
+                     + (f"frames {[i + 1 for i in odd]} with another {what} ({how})" if odd else 'all frames agree'))
+    # both entry points in every history
+    ops = {q['op'] for q in c['queries']}
+    if 'geometry' not in ops:
+        c['queries'].append(dict(c['queries'][0], op='geometry'))
+    if 'volume' not in ops:
+        c['queries'].append(dict(c['queries'][0], op='volume', kd=None))
+    return c
+
+
+def _perframe_reordered(rng, c):
+    """the same frames in another order: a foreign frame moved to the front / to the end, or shuffled"""
+    n = len(c['pos'])
+    order = list(range(n))
+    odd = c['odd']['frames']
+    r = rng.random()
+    if odd and r < 0.35:
+        i = rng.choice(odd)
+        order = [i] + [j for j in order if j != i]
+    elif odd and r < 0.6:
+        i = rng.choice(odd)
+        order = [j for j in order if j != i] + [i]
+    elif r < 0.8:
+        order.reverse()
+    else:
+        rng.shuffle(order)
+    d = _permuted(c, order)
+    for key in ('segs', 'ori_of', 'px_of', 'sbs_of'):
+        if c.get(key) is not None:
+            d[key] = [c[key][i] for i in order]
+    d['odd'] = dict(c['odd'], frames=sorted(order.index(i) for i in odd))
+    d['meta'] = dict(d['meta'], note=c['meta']['note'] + f' (frames reordered {order})')
+    return d
+
+
 # --------------------------------------------------------------------------
 # implementation side
 # --------------------------------------------------------------------------
@@ -906,13 +1051,43 @@ def _seg_dataset(c):
     return ds
 
 
+def _to_perframe(ds, c):
+    """move the plane orientation / pixel measures of the dataset into the per-frame functional groups, with the
+    per-frame values of the (mf_perframe) case; the shared PixelSpacing is c['px']"""
+    from pydicom.dataset import Dataset
+    sh = ds.SharedFunctionalGroupsSequence[0]
+    pm = sh.PixelMeasuresSequence[0]
+    pm.PixelSpacing = [float(x) for x in c['px']]
+    items = ds.PerFrameFunctionalGroupsSequence
+    if c.get('ori_of') is not None:
+        del sh.PlaneOrientationSequence
+        for it, o in zip(items, c['ori_of']):
+            po = Dataset()
+            po.ImageOrientationPatient = [float(x) for x in o]
+            it.PlaneOrientationSequence = [po]
+    if c.get('px_of') is not None:
+        thick = float(pm.get('SliceThickness', 1.0))
+        del sh.PixelMeasuresSequence
+        for it, px, h in zip(items, c['px_of'], c['sbs_of']):
+            m = Dataset()
+            m.SliceThickness = thick
+            m.PixelSpacing = [float(x) for x in px]
+            if h is not None:
+                m.SpacingBetweenSlices = float(h)
+            it.PixelMeasuresSequence = [m]
+    return ds
+
+
 def _geometry_image(c, order=None):
     """the multi-frame image of an mf_geometry case (frames in `order`), as Image or Segmentation"""
     import highdicom as hd
     d = c if order is None else dict(c, pos=[c['pos'][i] for i in order])
+    ds = _seg_dataset(d) if c['target'] == 'seg' else _enhanced(d)
+    if c['kind'] == 'mf_perframe':
+        ds = _to_perframe(ds, d)
     if c['target'] == 'seg':
-        return hd.seg.Segmentation.from_dataset(_seg_dataset(d))
-    return hd.Image.from_dataset(_enhanced(d))
+        return hd.seg.Segmentation.from_dataset(ds)
+    return hd.Image.from_dataset(ds)
 
 
 def _geometry_kwargs(c):
@@ -939,7 +1114,10 @@ def _ask(obj, c, q):
     if q['op'] == 'geometry':
         if q['kd'] is not None:
             kw['allow_duplicate_positions'] = q['kd']
-        return _canon_geometry(obj.get_volume_geometry(**kw))
+        g = obj.get_volume_geometry(**kw)
+        if g is not None and c['kind'] == 'mf_perframe':
+            return _canon_geometry(g) + [g.affine[:3, 1].tolist(), g.affine[:3, 2].tolist()]
+        return _canon_geometry(g)
     v = obj.get_volume(**kw)
     n = len(c['pos'])
     if c['target'] == 'seg':
@@ -955,7 +1133,9 @@ def _ask(obj, c, q):
             slots.append(row)
     else:
         slots = [[i] for i in _ids_of(v.array, c, n)]
-    return [int(v.spatial_shape[0]), float(v.spacing[0]), v.affine[:3, 3].tolist(), v.affine[:3, 0].tolist(), slots]
+    inplane = [v.affine[:3, 1].tolist(), v.affine[:3, 2].tolist()] if c['kind'] == 'mf_perframe' else []
+    return ([int(v.spatial_shape[0]), float(v.spacing[0]), v.affine[:3, 3].tolist(), v.affine[:3, 0].tolist()]
+            + inplane + [slots])
 
 
 def _ids_of(arr, c, n):
@@ -1021,7 +1201,7 @@ def run_impl(c):
                 ids = _ids_of(v.array, c, len(c['pos']))
                 return [ids, float(v.spacing[0]), v.affine[:3, 3].tolist(), v.affine[:3, 0].tolist()]
             return catch(f)
-        if k == 'mf_history':
+        if k in ('mf_history', 'mf_perframe'):
             obj = _geometry_image(c)          # ONE object for the whole history
             return [catch(lambda: _ask(obj, c, q)) for q in c['queries']]
         if k == 'mf_geometry':
@@ -1107,6 +1287,8 @@ def _undecided(c):
         return _geometry_expected(c)[2] == ANY
     if k == 'mf_history':
         return any(_query_expected(c, q)[2] == ANY for q in c['queries'])
+    if k == 'mf_perframe':
+        return _pf_consistent(c) and any(_query_expected(c, q)[2] == ANY for q in c['queries'])
     return _expected(c) == ANY
 
 
@@ -1144,6 +1326,18 @@ def coq_term(c):
               f"QVol {_oq(q['rtol'])} {_oq(q['atol'])} {ob(q['km'])}" for q in c['queries']]
         return (f"(run_mf_history {common.zl(c['segs'])} {common.zl(_out_channels(c))} {ps} {rc} {cc} "
                 f"{_oq(c['opts']['hint'])} {_b(c['target'] == 'seg')} [{'; '.join(qs)}])")
+    if k == 'mf_perframe':
+        ob = lambda x: 'None' if x is None else f'(Some {_b(x)})'
+        qs = [f"QGeom {_oq(q['rtol'])} {_oq(q['atol'])} {ob(q['km'])} {ob(q['kd'])}" if q['op'] == 'geometry' else
+              f"QVol {_oq(q['rtol'])} {_oq(q['atol'])} {ob(q['km'])}" for q in c['queries']]
+        frames = []
+        for i, p in enumerate(c['pos']):
+            o = c['ori_of'][i] if c['ori_of'] is not None else _orient(c)
+            px = c['px_of'][i] if c['px_of'] is not None else c['px']
+            h = c['sbs_of'][i] if c['px_of'] is not None else c['opts']['hint']
+            frames.append(f"mkFA {_v3(o[:3])} {_v3(o[3:])} {_qf(px[0])} {_qf(px[1])} {_oq(h)} {_v3(p)}")
+        return (f"(run_pf_history {common.zl(c['segs'])} {common.zl(_out_channels(c))} [{'; '.join(frames)}] "
+                f"{_b(c['target'] == 'seg')} [{'; '.join(qs)}])")
     if k == 'order_pair':
         ps2 = '[' + '; '.join(_v3(c['pos'][i]) for i in c['perm']) + ']'
         o = _opts(c, c['opts']['hint'])
@@ -1444,12 +1638,35 @@ def oracle(c, out):
             return f'{what}: {nsl} slices, expected {max(exp[2]) + 1}'
         r = _geom_check(c, sign, sp, org, sv, exp[1], c['pos'][exp[2].index(0)])
         return f'{what}: {r}' if r else None
-    if k == 'mf_history':
+    if k in ('mf_history', 'mf_perframe'):
         if len(out) != len(c['queries']):
             return f'{len(out)} answers to {len(c["queries"])} queries'
         cls = 'Segmentation' if c['target'] == 'seg' else 'Image'
+        foreign = None
+        if k == 'mf_perframe':
+            cls += ' with per-frame ' + ' and '.join(
+                n for n, key in (('plane orientation', 'ori_of'), ('pixel measures', 'px_of')) if c[key] is not None)
+            if not _pf_consistent(c):
+                foreign = _pf_foreign(c)
         for i, (q, a) in enumerate(zip(c['queries'], out)):
             sign, (em, ed), exp = _query_expected(c, q)
+            inplane = None
+            if k == 'mf_perframe' and isinstance(a, list):
+                # [slices, spacing, origin, slice axis, row-step axis, column-step axis (, slots)]
+                inplane, a = a[4:6], a[:4] + a[6:]
+            if foreign is not None:
+                # frames that are not parallel planes on one pixel grid (or contradict each other about the
+                # slice spacing) are not a stack, whatever the tolerances / declarations and the frame order
+                args = 'get_volume_geometry' if q['op'] == 'geometry' else 'get_volume'
+                if q['rtol'] is not None and q['atol'] is not None and a == Err('TypeError'):
+                    continue        # refusing the two tolerances first is equally good
+                if q['op'] == 'geometry' and a is not None:
+                    return (f'query {i + 1} of {len(out)} on one {cls}: {foreign}: {args}() must be None, got '
+                            f'{a!r}' + (f' in-plane axes {inplane!r}' if inplane else ''))
+                if q['op'] == 'volume' and a != Err('RuntimeError'):
+                    return (f'query {i + 1} of {len(out)} on one {cls}: {foreign}: {args}() must raise RuntimeError, '
+                            f'got {a!r}')
+                continue
             args = ', '.join(f'{n}={q[key]}' for n, key in (('rtol', 'rtol'), ('atol', 'atol'),
                                                            ('allow_missing_positions', 'km'),
                                                            ('allow_duplicate_positions', 'kd')) if q[key] is not None)
@@ -1459,8 +1676,8 @@ def oracle(c, out):
                     + (f" after {i} earlier quer{'y' if i == 1 else 'ies'}" if i else ''))
             # the same question asked twice of the same object gets the same answer (whatever the spec says)
             for j in range(i):
-                if c['queries'][j] == q and out[j] != a:
-                    return f'{what}: {a!r}, but the same query got {out[j]!r} as query {j + 1}'
+                if c['queries'][j] == q and out[j] != out[i]:
+                    return f'{what}: {out[i]!r}, but the same query got {out[j]!r} as query {j + 1}'
             if exp == ANY:
                 continue
             if q['op'] == 'geometry':
@@ -1486,6 +1703,11 @@ def oracle(c, out):
             r = _geom_check(c, sign, a[1], a[2], a[3], exp[1], c['pos'][exp[2].index(0)])
             if r:
                 return f'{what}: {r}'
+            if k == 'mf_perframe':
+                want_axes = [[float(F(x)) * c['px'][0] for x in c['cc']], [float(F(x)) * c['px'][1] for x in c['rc']]]
+                if inplane is None or not np.allclose(inplane, want_axes, rtol=0, atol=1e-9):
+                    return (f'{what}: in-plane axes {inplane!r}, expected column cosines x PixelSpacing[0], row '
+                            f'cosines x PixelSpacing[1] = {want_axes!r}')
             if q['op'] == 'volume':
                 chans = _out_channels(c)
                 want = [[None] * len(chans) for _ in range(max(exp[2]) + 1)]
@@ -1549,6 +1771,25 @@ def _query_expected(c, q):
     return sign, (em, ed), _spec(D, L, o, c['opts']['hint'])
 
 
+def _pf_consistent(c):
+    """every frame of an mf_perframe case carries the same orientation, pixel spacing and spacing hint
+    (decided on the values written into the dataset, float equality)"""
+    def same(xs):
+        return xs is None or all(x == xs[0] for x in xs)
+    return same(c['ori_of']) and same(c['px_of']) and same(c['sbs_of'])
+
+
+def _pf_foreign(c):
+    """description of the disagreement between the frames of an mf_perframe case"""
+    for key, name in (('ori_of', 'ImageOrientationPatient'), ('px_of', 'PixelSpacing'),
+                      ('sbs_of', 'SpacingBetweenSlices')):
+        xs = c[key]
+        if xs is not None and any(x != xs[0] for x in xs):
+            j = next(i for i, x in enumerate(xs) if x != xs[0])
+            return f'frame 1 has {name} {xs[0]} but frame {j + 1} has {xs[j]} (frames {len(xs)})'
+    return None
+
+
 def _geom_check(c, sign, sp, org, sv, want_sp, want_org):
     import numpy as np
     if abs(sp - float(want_sp)) > 1e-9 * (1 + float(want_sp)):
@@ -1585,8 +1826,13 @@ def shrink(c):
                            lat=c['meta']['lat'][:i] + c['meta']['lat'][i + 1:]))
         if d.get('resc') is not None:
             d['resc'] = c['resc'][:i] + c['resc'][i + 1:]
-        if d.get('segs') is not None:
-            d['segs'] = c['segs'][:i] + c['segs'][i + 1:]
+        for key in ('segs', 'ori_of', 'px_of', 'sbs_of'):
+            if d.get(key) is not None:
+                d[key] = c[key][:i] + c[key][i + 1:]
+        if d.get('odd') is not None:
+            d['odd'] = dict(c['odd'], frames=[j - (j > i) for j in c['odd']['frames'] if j != i])
+            if d['odd']['frames'] and len(d['odd']['frames']) == len(d['pos']):
+                continue        # keep a frame with the orientation / pixel measures the case is described by
         if d.get('perm') is not None:
             d['perm'] = [j - (j > i) for j in c['perm'] if j != i]
         if d.get('orient_break') is not None:
